@@ -11,7 +11,7 @@
 (* or still pending, so that ignored entries simply drop out; for override the base tree [s] is       *)
 (* replaced by [remove_key k s] whenever the node that came from key [k] is overwritten.              *)
 From Coq Require Import Permutation.
-From Tempren Require Import Base.Str Py.PathLib Py.PathLibProofs FS.Model FS.Lemmas FS.WfCheck Pipe.Pipeline Pipe.DestParent
+From Tempren Require Import Base.Str Py.PathLib Py.PathLibProofs FS.Model FS.Lemmas FS.WfCheck Pipe.Pipeline Pipe.DestParent Pipe.BacklogVerify
   Corr.PipeCorr Pipe.PlanExact Pipe.Strategies.
 Open Scope N_scope.
 (* the walk is used only through lemmas; without this the kernel may unfold [walk walk_fuel] at Qed *)
@@ -289,7 +289,35 @@ Proof.
         apply (renamer_step c Cm Cd Cf Cv s plan W OK D f t _ w w1 Hin I1 R).
 Qed.
 
+(* the tests run again before a deferred entry is retried (F38) say yes too, on the state it is retried in *)
+Lemma retest_yes D f t P x :
+  dests_plain s plan -> In (f, RText t) plan -> Inv s plan D ((f, RText t) :: P) x -> dst_key f t <> src_key f ->
+  backlog_verify fixed x (pf_dir f) (pf_rel f) (new_path f t) = None.
+Proof.
+  intros DP Hin I Hne.
+  destruct (dest_not_link D f t _ _ DP Hin I Hne) as [Hlen Hnl].
+  destruct (containment_ok2 D f t _ _ Hin I Hnl Hlen) as [Ct [Pc Sc]]. rewrite Cv in Ct.
+  pose proof (plan_entry s plan OK _ Hin) as [_ [_ [_ [_ [Hwn _]]]]].
+  destruct (with_name_form _ _ Hwn) as [_ Hg].
+  assert (Hg' : pp_with_name (pf_rel f) t = Some (new_path f t)) by exact Hg.
+  apply backlog_verify_yes; [exact Ct | exact (dest_parent_test_with_name _ _ _ _ _ Hg' Sc) | exact Pc | exact Sc].
+Qed.
+
 End Gen.
+
+(* [dests_plain] passes to a part of the plan on a part of the tree *)
+Lemma dests_plain_sub s plan s1 plan1 :
+  WF s -> (forall k n, In (k, n) s1 -> In (k, n) s) -> incl plan1 plan ->
+  dests_plain s plan -> dests_plain s1 plan1.
+Proof.
+  intros W Sub C DP f t Hin Hne. destruct (DP f t (C _ Hin) Hne) as [Hlen Hnl]. split; [exact Hlen|].
+  intros k i tg La Hk L. apply (Hnl k i tg).
+  - destruct La as [E|[f' [t' [H1 [H2 H3]]]]]; [left; exact E|]. right. exists f', t'. split; [apply C, H1 | split; assumption].
+  - exact Hk.
+  - destruct k as [|a k].
+    + discriminate L.
+    + apply (In_lookup s _ _ W). apply Sub. apply lookup_In; [discriminate | exact L].
+Qed.
 
 (* ====================== the run, case by case ========================================================== *)
 Lemma run_cases c plan cwd s :
@@ -405,6 +433,7 @@ Qed.
 Lemma second_pass_stop : c_strategy c = Stop -> forall blE w cwd D w' cwd' e,
   Inv s plan D blE (w_fs w) -> (forall f t, In (f, RText t) blE -> dst_key f t <> src_key f) ->
   second_pass c (map pend blE) w cwd = (w', cwd', Some e) ->
+  dests_plain s plan \/ is_file_exists e = true ->
   e = ExDestExists /\ exists f t, In (f, RText t) blE /\ In (f, RText t) plan /\ conflict s plan f t.
 Proof.
   intros Cs. induction blE as [|[f r] blE IH]; intros w cwd D w' cwd' e I Mv.
@@ -414,16 +443,20 @@ Proof.
     destruct (plan_text s plan OK f r Hin) as [t ->].
     cbn [map pend second_pass]. rewrite Cv. cbn [fixed v_backlog_chdir].
     rewrite (chdir_stays s plan W OK D _ _ f t I Hin).
+    destruct (backlog_verify fixed (w_fs w) (pf_dir f) (pf_rel f) (new_path f t)) as [ev|] eqn:BV.
+    { intros E [DP|Fe]; exfalso.
+      - rewrite (retest_yes c Cv s plan W OK D f t blE _ DP Hin I (Mv f t (or_introl eq_refl))) in BV. discriminate BV.
+      - inversion E; subst. rewrite (backlog_verify_not_exists _ _ _ _ _ _ BV) in Fe. discriminate Fe. }
     pose proof (renamer_cases c Cm Cd Cf Cv s plan W OK D f t blE w Hin I) as RC.
     destruct (lookup (w_fs w) (dst_key f t)) as [m|] eqn:L.
     + rewrite RC. cbn [is_file_exists]. unfold resolve_conflict. rewrite Cs. cbn [resolve_simple].
-      intros E. inversion E; subst. split; [reflexivity|]. exists f, t.
+      intros E _. inversion E; subst. split; [reflexivity|]. exists f, t.
       split; [left; reflexivity|]. split; [exact Hin|].
       apply (occupied_conflict s plan W D f t blE _ m I); [apply Mv; left; reflexivity | exact L].
-    + destruct RC as [w1 R]. rewrite R. intros E.
+    + destruct RC as [w1 R]. rewrite R. intros E HF.
       destruct (IH w1 _ ((f, RText t) :: D) _ _ _
                   (renamer_step c Cm Cd Cf Cv s plan W OK D f t _ w w1 Hin I R)
-                  (fun f0 t0 H => Mv f0 t0 (or_intror H)) E) as [E1 [f0 [t0 [H1 [H2 H3]]]]].
+                  (fun f0 t0 H => Mv f0 t0 (or_intror H)) E HF) as [E1 [f0 [t0 [H1 [H2 H3]]]]].
       split; [exact E1|]. exists f0, t0. split; [right; exact H1 | split; assumption].
 Qed.
 
@@ -438,7 +471,7 @@ Proof.
     destruct (generate_ok f r Hin) as [np Hg]. congruence.
   - rewrite E2 in Er. subst e2.
     destruct (first_pass_summary cwd _ _ _ FP) as [D1 [blE [-> [I1 Mv]]]].
-    destruct (second_pass_stop Cs blE _ _ _ _ _ _ I1 Mv SP) as [_ [f [t [_ [H2 H3]]]]].
+    destruct (second_pass_stop Cs blE _ _ _ _ _ _ I1 Mv SP (or_intror Fe)) as [_ [f [t [_ [H2 H3]]]]].
     exists f, t. split; assumption.
 Qed.
 
@@ -447,11 +480,12 @@ Theorem stop_error_names_plan_entry cwd w1 cwd1 bl w2 cwd2 e :
   c_strategy c = Stop ->
   first_pass c plan (init_world s (c_answers c)) cwd [] = (w1, cwd1, bl, None) ->
   second_pass c bl w1 cwd1 = (w2, cwd2, Some e) ->
+  dests_plain s plan \/ is_file_exists e = true ->
   e = ExDestExists /\
   exists f t, In (pf_dir f, pf_rel f, new_path f t) bl /\ In (f, RText t) plan /\ conflict s plan f t.
 Proof.
-  intros Cs FP SP. destruct (first_pass_summary cwd _ _ _ FP) as [D1 [blE [-> [I1 Mv]]]].
-  destruct (second_pass_stop Cs blE _ _ _ _ _ _ I1 Mv SP) as [E [f [t [H1 [H2 H3]]]]].
+  intros Cs FP SP HF. destruct (first_pass_summary cwd _ _ _ FP) as [D1 [blE [-> [I1 Mv]]]].
+  destruct (second_pass_stop Cs blE _ _ _ _ _ _ I1 Mv SP HF) as [E [f [t [H1 [H2 H3]]]]].
   split; [exact E|]. exists f, t. split; [|split; assumption].
   change (pf_dir f, pf_rel f, new_path f t) with (pend (f, RText t)). apply in_map. exact H1.
 Qed.
@@ -475,14 +509,18 @@ Proof.
 Qed.
 
 (* ---------- ignore ----------------------------------------------------------------------------------------- *)
+(* a re-test of a deferred entry that says no ends the run (F38): the second pass is described for the case
+   that it ends without error, which is what happens under [dests_plain] *)
 Lemma second_pass_ignore : c_strategy c = Ignore -> forall blE w cwd D,
   St D blE (w_fs w) -> (forall f t, In (f, RText t) blE -> dst_key f t <> src_key f) ->
-  exists w' cwd' D',
-    second_pass c (map pend blE) w cwd = (w', cwd', None) /\ St D' [] (w_fs w') /\ incl D D' /\
-    (forall f t, In (f, RText t) blE -> In (f, RText t) D' \/ conflict s plan f t).
+  exists w' cwd' e,
+    second_pass c (map pend blE) w cwd = (w', cwd', e) /\ (dests_plain s plan -> e = None) /\
+    (e = None -> exists D', St D' [] (w_fs w') /\ incl D D' /\
+      (forall f t, In (f, RText t) blE -> In (f, RText t) D' \/ conflict s plan f t)).
 Proof.
   intros Cs. induction blE as [|[f r] blE IH]; intros w cwd D S Mv.
-  - exists w, cwd, D. split; [reflexivity|]. split; [exact S|]. split; [apply incl_refl|]. intros f t [].
+  - exists w, cwd, None. split; [reflexivity|]. split; [reflexivity|]. intros _.
+    exists D. split; [exact S|]. split; [apply incl_refl|]. intros f t [].
   - assert (Hin : In (f, r) plan).
     { destruct S as [_ [_ [C _]]]. apply C. apply in_or_app. right. left. reflexivity. }
     destruct (plan_text s plan OK f r Hin) as [t ->].
@@ -490,18 +528,28 @@ Proof.
     assert (Hin2 : In (f, RText t) (D ++ (f, RText t) :: blE)) by (apply in_or_app; right; left; reflexivity).
     cbn [map pend second_pass]. rewrite Cv. cbn [fixed v_backlog_chdir].
     rewrite (chdir_stays s _ W OK2 D _ _ f t I Hin2).
+    destruct (backlog_verify fixed (w_fs w) (pf_dir f) (pf_rel f) (new_path f t)) as [ev|] eqn:BV.
+    { exists w, (pf_dir f), (Some ev). split; [reflexivity|]. split; [|discriminate].
+      intros DP. exfalso.
+      assert (DP2 : dests_plain s (D ++ (f, RText t) :: blE)).
+      { destruct S as [_ [_ [C _]]]. exact (dests_plain_sub s plan s _ W (fun k n H => H) C DP). }
+      rewrite (retest_yes c Cv s _ W OK2 D f t blE _ DP2 Hin2 I (Mv f t (or_introl eq_refl))) in BV. discriminate BV. }
     pose proof (renamer_cases c Cm Cd Cf Cv s _ W OK2 D f t blE w Hin2 I) as RC.
     destruct (lookup (w_fs w) (dst_key f t)) as [m|] eqn:L.
     + rewrite RC. cbn [is_file_exists]. unfold resolve_conflict. rewrite Cs. cbn [resolve_simple].
       destruct (IH w (pf_dir f) D (St_drop _ _ _ _ S) (fun f0 t0 H => Mv f0 t0 (or_intror H)))
-        as [w' [cwd' [D' [SP [S' [Inc Cov]]]]]].
-      exists w', cwd', D'. split; [exact SP|]. split; [exact S'|]. split; [exact Inc|].
+        as [w' [cwd' [e' [SP [He X]]]]].
+      exists w', cwd', e'. split; [exact SP|]. split; [exact He|]. intros En.
+      destruct (X En) as [D' [S' [Inc Cov]]].
+      exists D'. split; [exact S'|]. split; [exact Inc|].
       intros f0 t0 [H|H]; [|apply Cov, H]. inversion H; subst f0 t0. right.
       apply (St_conflict D f t blE _ m S); [apply Mv; left; reflexivity | exact L].
     + destruct RC as [w1 R]. rewrite R.
       destruct (IH w1 (pf_dir f) ((f, RText t) :: D) (St_rename D f t blE w w1 S R)
-                  (fun f0 t0 H => Mv f0 t0 (or_intror H))) as [w' [cwd' [D' [SP [S' [Inc Cov]]]]]].
-      exists w', cwd', D'. split; [exact SP|]. split; [exact S'|].
+                  (fun f0 t0 H => Mv f0 t0 (or_intror H))) as [w' [cwd' [e' [SP [He X]]]]].
+      exists w', cwd', e'. split; [exact SP|]. split; [exact He|]. intros En.
+      destruct (X En) as [D' [S' [Inc Cov]]].
+      exists D'. split; [exact S'|].
       split; [intros a Ha; apply Inc; right; exact Ha|].
       intros f0 t0 [H|H]; [|apply Cov, H]. inversion H; subst f0 t0. left. apply Inc. left. reflexivity.
 Qed.
@@ -517,8 +565,9 @@ Proof.
   destruct (run_cases c plan cwd s) as [[w1 [cwd1 [bl [e1 [FP [E1 _]]]]]]|[w1 [cwd1 [bl [w2 [cwd2 [e2 [FP [SP [E2 Fin]]]]]]]]]].
   - congruence.
   - rewrite Fin. destruct (first_pass_summary cwd _ _ _ FP) as [D1 [blE [-> [I1 Mv]]]].
-    destruct (second_pass_ignore Cs blE w1 cwd1 D1 (Inv_St _ _ _ I1) Mv) as [w' [cwd' [D' [SP' [S' [Inc Cov]]]]]].
-    rewrite SP' in SP. inversion SP; subst w' cwd' e2.
+    destruct (second_pass_ignore Cs blE w1 cwd1 D1 (Inv_St _ _ _ I1) Mv) as [w' [cwd' [e' [SP' [_ X]]]]].
+    rewrite SP' in SP. inversion SP; subst w' cwd' e'.
+    destruct (X (eq_trans (eq_sym E2) Er)) as [D' [S' [Inc Cov]]].
     destruct S' as [A [B [C N]]]. rewrite app_nil_r in C, N.
     exists D'. split; [exact A|]. split; [exact B|]. split; [exact C|]. split; [exact N|].
     intros f t Hin. destruct I1 as [_ [_ [_ [_ [_ G]]]]].
@@ -535,7 +584,8 @@ Proof.
   destruct (first_pass_total c Cm Cd Cf Cv s plan W OK DP plan _ cwd [] [] init_Inv) as [w1 [cwd1 [D1 [blE [FP I1]]]]].
   cbn [map] in FP.
   destruct (first_pass_summary cwd _ _ _ FP) as [D1' [blE' [Ebl [I1' Mv]]]].
-  destruct (second_pass_ignore Cs blE' w1 cwd1 D1' (Inv_St _ _ _ I1') Mv) as [w' [cwd' [D' [SP' _]]]].
+  destruct (second_pass_ignore Cs blE' w1 cwd1 D1' (Inv_St _ _ _ I1') Mv) as [w' [cwd' [e' [SP' [He _]]]]].
+  rewrite (He DP) in SP'.
   destruct (run_cases c plan cwd s) as [[w1a [cwd1a [bla [e1 [FPa _]]]]]|[w1a [cwd1a [bla [w2 [cwd2 [e2 [FPa [SP [E2 _]]]]]]]]]].
   - rewrite FP in FPa. discriminate FPa.
   - rewrite FP in FPa. inversion FPa; subst w1a cwd1a bla. rewrite E2. rewrite Ebl, SP' in SP. congruence.
@@ -999,12 +1049,14 @@ Qed.
 
 Lemma second_pass_override : forall blE w cwd s1 D,
   OSt s1 D blE (w_fs w) -> (forall f t, In (f, RText t) blE -> dst_key f t <> src_key f) ->
-  exists w' cwd' s2 D',
-    second_pass c (map pend blE) w cwd = (w', cwd', None) /\ OSt s2 D' [] (w_fs w') /\
-    (forall f t, In (f, RText t) D \/ In (f, RText t) blE -> In (f, RText t) D' \/ retargeted f t).
+  exists w' cwd' e,
+    second_pass c (map pend blE) w cwd = (w', cwd', e) /\ (dests_plain s plan -> e = None) /\
+    (e = None -> exists s2 D', OSt s2 D' [] (w_fs w') /\
+      (forall f t, In (f, RText t) D \/ In (f, RText t) blE -> In (f, RText t) D' \/ retargeted f t)).
 Proof.
   induction blE as [|[f r] blE IH]; intros w cwd s1 D S Mv.
-  - exists w, cwd, s1, D. split; [reflexivity|]. split; [exact S|]. intros f t [H|[]]. left. exact H.
+  - exists w, cwd, None. split; [reflexivity|]. split; [reflexivity|]. intros _.
+    exists s1, D. split; [exact S|]. intros f t [H|[]]. left. exact H.
   - pose proof (OSt_Inv _ _ _ _ S) as I. pose proof S as [W1 [Sub [OK1 [_ [_ C]]]]].
     assert (Hin2' : In (f, r) (D ++ (f, r) :: blE)) by (apply in_or_app; right; left; reflexivity).
     destruct (plan_text s1 _ OK1 f r Hin2') as [t ->].
@@ -1013,12 +1065,19 @@ Proof.
     assert (Hne : dst_key f t <> src_key f) by (apply Mv; left; reflexivity).
     cbn [map pend second_pass]. rewrite Cv. cbn [fixed v_backlog_chdir].
     rewrite (chdir_stays s1 _ W1 OK1 D _ _ f t I Hin2).
+    destruct (backlog_verify fixed (w_fs w) (pf_dir f) (pf_rel f) (new_path f t)) as [ev|] eqn:BV.
+    { exists w, (pf_dir f), (Some ev). split; [reflexivity|]. split; [|discriminate].
+      intros DP. exfalso.
+      assert (DP2 : dests_plain s1 (D ++ (f, RText t) :: blE)) by exact (dests_plain_sub s plan s1 _ W Sub C DP).
+      rewrite (retest_yes c Cv s1 _ W1 OK1 D f t blE _ DP2 Hin2 I Hne) in BV. discriminate BV. }
     pose proof (renamer_cases c Cm Cd Cf Cv s1 _ W1 OK1 D f t blE w Hin2 I) as RC.
     destruct (lookup (w_fs w) (dst_key f t)) as [m|] eqn:L.
     + rewrite RC. cbn [is_file_exists]. unfold resolve_conflict. rewrite Cs. cbn [resolve_simple].
       destruct (OSt_override s1 D f t blE w m S Hne L) as [k0 [w1 [R [Ed [Hk0s S1]]]]]. rewrite R.
-      destruct (IH w1 (pf_dir f) _ _ S1 (fun f0 t0 H => Mv f0 t0 (or_intror H))) as [w' [cwd' [s2 [D' [SP [S' Cov]]]]]].
-      exists w', cwd', s2, D'. split; [exact SP|]. split; [exact S'|].
+      destruct (IH w1 (pf_dir f) _ _ S1 (fun f0 t0 H => Mv f0 t0 (or_intror H))) as [w' [cwd' [e' [SP [He X]]]]].
+      exists w', cwd', e'. split; [exact SP|]. split; [exact He|]. intros En.
+      destruct (X En) as [s2 [D' [S' Cov]]].
+      exists s2, D'. split; [exact S'|].
       intros f0 t0 [H|[H|H]].
       * destruct (rpath_eqb (src_key f0) k0) eqn:E0.
         -- apply rpath_eqb_eq in E0. right. exists f, t. split; [exact Hin|]. split; [congruence|].
@@ -1028,8 +1087,10 @@ Proof.
       * apply Cov. right. exact H.
     + destruct RC as [w1 R]. rewrite R.
       destruct (IH w1 (pf_dir f) _ _ (OSt_rename s1 D f t blE w w1 S R) (fun f0 t0 H => Mv f0 t0 (or_intror H)))
-        as [w' [cwd' [s2 [D' [SP [S' Cov]]]]]].
-      exists w', cwd', s2, D'. split; [exact SP|]. split; [exact S'|].
+        as [w' [cwd' [e' [SP [He X]]]]].
+      exists w', cwd', e'. split; [exact SP|]. split; [exact He|]. intros En.
+      destruct (X En) as [s2 [D' [S' Cov]]].
+      exists s2, D'. split; [exact S'|].
       intros f0 t0 [H|[H|H]].
       * apply Cov. left. right. exact H.
       * inversion H; subst f0 t0. apply Cov. left. left. reflexivity.
@@ -1053,8 +1114,9 @@ Proof.
   destruct (run_cases c plan cwd s) as [[w1 [cwd1 [bl [e1 [FP [E1 _]]]]]]|[w1 [cwd1 [bl [w2 [cwd2 [e2 [FP [SP [E2 Fin]]]]]]]]]].
   - congruence.
   - rewrite Fin. destruct (first_pass_summary c Cm Cd Cf Cv s plan W OK cwd _ _ _ FP) as [D1 [blE [-> [I1 Mv]]]].
-    destruct (second_pass_override blE w1 cwd1 s D1 (Inv_OSt _ _ _ I1) Mv) as [w' [cwd' [s2 [D' [SP' [S' Cov]]]]]].
-    rewrite SP' in SP. inversion SP; subst w' cwd' e2.
+    destruct (second_pass_override blE w1 cwd1 s D1 (Inv_OSt _ _ _ I1) Mv) as [w' [cwd' [e' [SP' [_ X]]]]].
+    rewrite SP' in SP. inversion SP; subst w' cwd' e'.
+    destruct (X (eq_trans (eq_sym E2) Er)) as [s2 [D' [S' Cov]]].
     exists s2, D'. split; [exact S'|].
     intros f t Hin. destruct I1 as [_ [_ [_ [_ [_ G]]]]].
     destruct (G _ Hin) as [Sk|[H|H]].
@@ -1069,7 +1131,8 @@ Proof.
   destruct (first_pass_total c Cm Cd Cf Cv s plan W OK DP plan _ cwd [] [] (init_Inv c s plan W OK)) as [w1 [cwd1 [D1 [blE [FP I1]]]]].
   cbn [map] in FP.
   destruct (first_pass_summary c Cm Cd Cf Cv s plan W OK cwd _ _ _ FP) as [D1' [blE' [Ebl [I1' Mv]]]].
-  destruct (second_pass_override blE' w1 cwd1 s D1' (Inv_OSt _ _ _ I1') Mv) as [w' [cwd' [s2 [D' [SP' _]]]]].
+  destruct (second_pass_override blE' w1 cwd1 s D1' (Inv_OSt _ _ _ I1') Mv) as [w' [cwd' [e' [SP' [He _]]]]].
+  rewrite (He DP) in SP'.
   destruct (run_cases c plan cwd s) as [[w1a [cwd1a [bla [e1 [FPa _]]]]]|[w1a [cwd1a [bla [w2 [cwd2 [e2 [FPa [SP [E2 _]]]]]]]]]].
   - rewrite FP in FPa. discriminate FPa.
   - rewrite FP in FPa. inversion FPa; subst w1a cwd1a bla. rewrite E2. rewrite Ebl, SP' in SP. congruence.
@@ -1121,6 +1184,7 @@ Theorem stop_error_names_plan_entry_thm : forall c plan cwd s w1 cwd1 bl w2 cwd2
   WF s -> selected_ok s plan ->
   first_pass c plan (init_world s (c_answers c)) cwd [] = (w1, cwd1, bl, None) ->
   second_pass c bl w1 cwd1 = (w2, cwd2, Some e) ->
+  dests_plain s plan \/ is_file_exists e = true ->
   e = ExDestExists /\
   exists f t, In (pf_dir f, pf_rel f, new_path f t) bl /\ In (f, RText t) plan /\ conflict s plan f t.
 Proof.
